@@ -16,7 +16,7 @@ RES_TYPES = ('full_abs', 'last_abs', 'full_rel', 'last_rel')
 
 
 def spec_integrate(L):
-    M, Q, dt = L.sweep.coll.num_nodes, L.sweep.coll.Qmat, L.dt
+    M, Q, dt = L.sweep.coll.num_nodes, L.sweep.coll.Qmat, L.params.dt
     return [vsum(dt * Q[m + 1, j] * ftot(L.f[j]) for j in range(1, M + 1)) for m in range(M)]
 
 
